@@ -206,3 +206,29 @@ Proof.
     split; [exists w; split; [exact Hw|apply Hw2]|exists w'; split; [exact Hw'|apply Hw2']].
 Qed.
 End Model.
+
+(* ---------- non-vacuity: the whole chain executed inside Coq ----------
+   HTTPS://A.B<u-umlaut>cher:443/x (parser model, host model, IDNA model with the adapter lowsan4) has the tuple origin
+   (https, a.xn--bcher-kva, 443); the domain is outside the known classes; origin.rs displays it as a.b<u-umlaut>cher, so
+   the Unicode serialization is the NON-ASCII text https://a.b<u-umlaut>cher, which parses to a URL with the same origin *)
+From RU Require Import Proofs.Idna_C12c_Stmt4.
+Definition t_HTTPS_A_Bucher_443_x : list N :=
+  [72; 84; 84; 80; 83; 58; 47; 47; 65; 46; 66; 195; 188; 99; 104; 101; 114; 58; 52; 52; 51; 47; 120].
+Definition t_https_a_bucher : list N := [104; 116; 116; 112; 115; 58; 47; 47; 97; 46; 98; 195; 188; 99; 104; 101; 114].
+Definition t_https_a_xn_bcher : list N :=
+  [104; 116; 116; 112; 115; 58; 47; 47; 97; 46; 120; 110; 45; 45; 98; 99; 104; 101; 114; 45; 107; 118; 97].
+Definition ex_origin_of (t : list N) : option ores :=
+  match url_parse true (host_parse (idna_of lowsan4 true)) host_parse_opaque host_display t with
+  | POk u => Some (url_origin true (host_parse (idna_of lowsan4 true)) host_parse_opaque host_display 0 u)
+  | _ => None
+  end.
+Example rt_unicode_example :
+  let o := Tuple s_https (HDomain W_stmt5_A) 443 in
+  ex_origin_of t_HTTPS_A_Bucher_443_x = Some (OOk o 0)
+  /\ (idna_of lowsan4 true W_stmt5_A = Some W_stmt5_A /\ Known_C12 lowsan4 true W_stmt5_A DENY_URL HAllow = false
+      /\ Known_C10_long W_stmt5_A = false)
+  /\ ascii_serialization host_display o = t_https_a_xn_bcher
+  /\ unicode_serialization host_display (origin_tu lowsan4 true) o = t_https_a_bucher
+  /\ ex_origin_of t_https_a_xn_bcher = Some (OOk o 0)
+  /\ ex_origin_of t_https_a_bucher = Some (OOk o 0).
+Proof. vm_compute. repeat split; reflexivity. Qed.
